@@ -256,12 +256,21 @@ def install_asym(cfg):
     for nm, (prv, pub) in OKP_KINDS.items():
         isf[prv] = is_kind(nm + "_priv")
         isf[pub] = is_kind(nm + "_pub")
+    # the real class behind each key kind: a member the real class does not have is an AttributeError in the
+    # interpreted program (not an unsupported construct)
+    rc = cfg.foreign_real_class
+    rc["rsa_priv"], rc["rsa_pub"] = _rsa.RSAPrivateKey, _rsa.RSAPublicKey
+    rc["ec_priv"], rc["ec_pub"] = _ec.EllipticCurvePrivateKey, _ec.EllipticCurvePublicKey
+    for nm, (prv, pub) in OKP_KINDS.items():
+        rc[nm + "_priv"], rc[nm + "_pub"] = prv, pub
 
     # ---- RSA -------------------------------------------------------------------------------
     def scheme_rsa(interp, padding, halg):
         return "RSA/" + pad_descriptor(padding) + "/" + hash_name_of(interp, halg)
 
     def rsa_sign(interp, k, args, kwargs):
+        if len(args) != 3:
+            interp.raise_(TypeError, "wrong number of positional arguments for this key type's method")
         msg, padding, halg = args
         sch = z3.StringVal(scheme_rsa(interp, padding, halg))
         mt = _bytes(interp, msg, "sign")
@@ -273,6 +282,8 @@ def install_asym(cfg):
     fm[("rsa_priv", "sign")] = rsa_sign
 
     def rsa_verify(interp, k, args, kwargs):
+        if len(args) != 4:
+            interp.raise_(TypeError, "wrong number of positional arguments for this key type's method")
         sig, msg, padding, halg = args
         sch = z3.StringVal(scheme_rsa(interp, padding, halg))
         ok = SigValid(sch, k.f["ident"], _bytes(interp, msg, "verify"), _bytes(interp, sig, "verify"))
@@ -293,6 +304,8 @@ def install_asym(cfg):
     fm[("ec_priv", "public_key")] = lambda interp, k, a, kw: mk_key("ec_pub", Pub(k.f["ident"]), curve=k.f["curve"])
 
     def ec_sign(interp, k, args, kwargs):
+        if len(args) != 2:
+            interp.raise_(TypeError, "wrong number of positional arguments for this key type's method")
         msg, alg = args
         hn = alg.f["hname"]
         mt = _bytes(interp, msg, "sign")
@@ -308,6 +321,8 @@ def install_asym(cfg):
     fm[("ec_priv", "sign")] = ec_sign
 
     def ec_verify(interp, k, args, kwargs):
+        if len(args) != 3:
+            interp.raise_(TypeError, "wrong number of positional arguments for this key type's method")
         der, msg, alg = args
         hn = alg.f["hname"]
         dt = _bytes(interp, der, "verify")
@@ -335,6 +350,8 @@ def install_asym(cfg):
     # ---- OKP -------------------------------------------------------------------------------
     for nm in ("ed25519", "ed448"):
         def ed_sign(interp, k, args, kwargs, nm=nm):
+            if len(args) != 1:
+                interp.raise_(TypeError, "wrong number of positional arguments for this key type's method")
             mt = _bytes(interp, args[0], "sign")
             sch = z3.StringVal("EdDSA/" + nm)
             sig = Sign(sch, k.f["ident"], mt, z3.IntVal(0))
@@ -343,6 +360,8 @@ def install_asym(cfg):
             return interp.mk("vbytes", sig)
 
         def ed_verify(interp, k, args, kwargs, nm=nm):
+            if len(args) != 2:
+                interp.raise_(TypeError, "wrong number of positional arguments for this key type's method")
             sig, msg = args
             ok = SigValid(z3.StringVal("EdDSA/" + nm), k.f["ident"], _bytes(interp, msg, "verify"), _bytes(interp, sig, "verify"))
             interp.ctx.events.append(("verify", "EdDSA/" + nm, k.f["ident"]))
@@ -664,8 +683,8 @@ def install_jwe(cfg):
         if interp.tag(iterations) not in ("vint", "vbool"):
             interp.raise_(TypeError, "iterations must be an integer")
         it = interp.int_term(iterations)
+        S.pow2_facts(ctx, z3.IntVal(64))
         if ctx.branch(z3.Or(it < 0, it >= S.Pow2(z3.IntVal(64)))):
-            S.pow2_facts(ctx, z3.IntVal(64))
             interp.raise_(OverflowError, "can't convert to C unsigned integer")
         S.pow2_facts(ctx, z3.IntVal(64))
         if ctx.branch(it < 1):
